@@ -4,7 +4,7 @@
    are about its exact-rational instance QA. *)
 From Coq Require Import List ZArith Bool QArith Floats Lqa.
 Import ListNotations.
-From PS Require Import Model.Router Model.Score Proofs.ScoreProofs Run.ScoreRun.
+From PS Require Import Model.Router Model.Score Proofs.ScoreProofs Proofs.ScoreParams Run.ScoreRun.
 
 (* counters never become negative or exceed their caps: in every state reachable by any history of
    scoring events (connect, disconnect, reconnect, graft, prune, validate, deliver, reject with each reason,
@@ -17,6 +17,11 @@ Theorem C10_counters_bounded : forall P l s p ps t ts,
   /\ exists tp, aget t (spTopics QA (prm QA s)) = Some tp /\ fmd QA ts <= tpFMDCap QA tp /\ mmd QA ts <= tpMMDCap QA tp.
 Proof. exact counters_bounded. Qed.
 Print Assumptions C10_counters_bounded.
+
+(* the caps the counters are bounded by are those in force AFTER each operation, and these depend on the operation alone
+   (in any arithmetic): the runner judges every observed step against [prm_after] *)
+Theorem C10_params_after_step : forall A s o s', sstep A s o = Some s' -> prm A s' = prm_after A (prm A s) o.
+Proof. exact prm_after_step. Qed.
 
 (* penalty components only ever lower the score *)
 Theorem C10_topic_penalties_only_lower : forall (tp : tparams QA) (ts : tstats QA),
